@@ -124,7 +124,8 @@ def main(tier):
     th = np.linspace(0.0, np.pi, nth)
     th[(nth - 1) // 2] = np.pi / 2; th[-1] = np.pi
     # forward and backward scattering are where 1 - cos(theta) and 1 + cos(theta) cancel: approach both ends geometrically
-    near = np.concatenate([10.0 ** -np.arange(2.0, 8.5, 0.5), np.pi - 10.0 ** -np.arange(2.0, 8.5, 0.5)])
+    near = np.concatenate([10.0 ** -np.arange(2.0, 8.5, 0.5), np.pi - 10.0 ** -np.arange(2.0, 8.5, 0.5),
+                           np.pi / 2 - 10.0 ** -np.arange(2.5, 8.5, 1.0), np.pi / 2 + 10.0 ** -np.arange(2.5, 8.5, 1.0)])       # ... and the right angle, from both sides
     th = np.unique(np.concatenate([th, rng.uniform(0, np.pi, 8), near]))
     nth = len(th)
     inear = np.nonzero(np.isin(th, near))[0]
